@@ -529,6 +529,21 @@ pub fn structural(ctx: &Ctx, st: &mut Stats) {
             }
         }
     }
+    // more than 65 535 lines / literal-buffer bytes before a rollback (C02, C04, C05, C07)
+    if matches!(prop, "C02" | "C04" | "C05" | "C07") {
+        for k in (ctx.shard..if ctx.tier == Tier::Quick { 6 } else { 24 }).step_by(ctx.nshards) {
+            let mut rr = Rng::derive(ctx.seed, k as u64, 6502, 1);
+            let spec = tg::speculation_case(&mut rr);
+            let tail = rr.pick(&["set b %cond c;", "%m(a b);", "%macro q; * a %x; %mend;", "%m x;", "\"%m x\";"]);
+            let s = match k % 3 {
+                0 => format!("{}{} {}\n{}", "x;\n".repeat(66_000 / 2), "\n".repeat(33_100), tail, spec),
+                1 => format!("y='{}''z'; {} {}", "a".repeat(70_000), tail, spec),
+                _ => format!("%let a=%str({}%%b); y=\"{}\"\"\"; {}\n{}", "q".repeat(40_000), "é".repeat(20_000), tail, spec),
+            };
+            structural_one(prop, st, &s, Src::Family);
+            st.count("beyond_16bit_inputs", 1);
+        }
+    }
     // very many diagnostics in one source (C09)
     if prop == "C09" {
         for k in (ctx.shard..if ctx.tier == Tier::Quick { 8 } else { 48 }).step_by(ctx.nshards) {
@@ -987,6 +1002,13 @@ pub fn c15(ctx: &Ctx, st: &mut Stats) {
             .to_string(),
             2..=4 => grammar::gen_program(&mut r, ctx.tier.gcfg()).s,
             _ => gen::general(&mut r, ctx.corpus, ctx.tier).0,
+        };
+        // a tenth of the pairs repeat (a mutation of) the prefix itself: state left behind by a
+        // construct is most likely to matter when the same kind of construct comes again
+        let b = if r.chance(1, 10) {
+            if r.chance(1, 2) { a.clone() } else { mutate::mutate_once(&a, &mut r) }
+        } else {
+            b
         };
         if b.starts_with('\u{feff}') {
             continue;
